@@ -155,6 +155,8 @@ where
         .sum();
     let kmer_mem = input_kmers * mem::size_of::<(K, D1)>();
     let max_mem = memory_size * 10_usize.pow(9);
+    #[cfg(feature = "verif_hooks")]
+    let max_mem = crate::verif_hooks::max_mem(memory_size, max_mem);
     let slices = kmer_mem / max_mem + 1;
     let sz = 256 / slices + 1;
 
@@ -182,6 +184,8 @@ where
     let mut valid_data = Vec::new();
     for (i, bucket_range) in bucket_ranges.into_iter().enumerate() {
         debug!("Processing bucket {} of {}", i, n_buckets);
+        #[cfg(feature = "verif_hooks")]
+        crate::verif_hooks::pass(i, bucket_range.start, bucket_range.end);
 
         let mut kmer_buckets = vec![Vec::new(); 256];
 
